@@ -3,6 +3,7 @@ EXTENDS LoaderMM, Json
 Rec == [kind |-> kind, def |-> def, pie |-> pie,
         refE |-> refs["E"], refL1 |-> refs["L1"], refL2 |-> refs["L2"],
         mechE |-> Mechanism["E"], mechL1 |-> Mechanism["L1"], mechL2 |-> Mechanism["L2"],
+        alias |-> alias, aliasE |-> usesAlias["E"], aliasL1 |-> usesAlias["L1"], aliasL2 |-> usesAlias["L2"],
         expectCopy |-> NeedsCopy, expectCanonicalPlt |-> NeedsCanonicalPlt]
 EmitReplay == (phase = "loaded") => PrintT(<<"REPLAY", ToJson(Rec)>>)
 =============================================================================
